@@ -101,7 +101,19 @@ impl Prop for C18 {
         let ic = rng.chance(1, 2);
         let stream = rng.below(100);
         let maxw = if tier == Tier::Thorough { 9 } else { 7 };
-        let (a, b) = if stream < 55 {
+        let (a, b) = if stream < 12 {
+            // case-dense stream: non-ASCII case pairs and length-changing lower-casing
+            const CASEW: &[&str] = &["é", "É", "İ", "i\u{307}", "y", "ß", "ẞ", "i"];
+            let n = rng.below(maxw);
+            let a: Vec<String> = (0..n).map(|_| rng.pick(CASEW).to_string()).collect();
+            let mut b = mutate(rng, &a, true);
+            for w in b.iter_mut() {
+                if rng.chance(1, 2) {
+                    *w = flip_case(w);
+                }
+            }
+            (join(rng, &a, false), join(rng, &b, false))
+        } else if stream < 55 {
             // dense stream: tiny alphabet, b a mutation of a (many ties in the table)
             let n = rng.below(maxw);
             let a: Vec<String> = (0..n).map(|_| rng.pick(&WORDS[..3]).to_string()).collect();
